@@ -261,6 +261,19 @@ def r02_8(run, model):
             return True, "name constructor"
         if e["k"] == "Lit":
             return True, "literal"
+        if e["k"] == "Call" and depth <= 3 and S.callee_name(e):
+            # a helper of the Go back end that writes a name from literals and numbers (positional field names, wrapper parameters)
+            hs = [h for rel_ in model.src_files() if rel_.startswith("crates/compiler/src/go/") for h in model.fns(rel_)
+                  if h.name == S.callee_name(e).split("::")[-1] and h.body is not None and (h.node.get("ret") or "").replace(" ", "") == "String"]
+            if len(hs) == 1 and hs[0] is not fn and hs[0].body["stmts"]:
+                last = hs[0].body["stmts"][-1]
+                if last["k"] == "ExprStmt" and not last.get("semi"):
+                    okh, whyh = safe(hs[0], last["expr"], depth + 1, set())
+                    argsok = all(safe(fn, a, depth + 1, seen)[0] or a["k"] in ("Unary", "Lit") and safe(fn, a.get("expr", a), depth + 1, seen)[0] for a in e["args"])
+                    if okh and argsok:
+                        return True, f"name helper {hs[0].name}"
+        if e["k"] == "Unary" and e.get("op") == "*":
+            return safe(fn, e["expr"], depth, seen)
         if e["k"] == "Macro" and e["name"] == "format":
             args = e.get("args") or []
             if args and args[0]["k"] == "Lit":
@@ -292,6 +305,9 @@ def r02_8(run, model):
             v = e["segs"][0]
             if re.fullmatch(IDX, v):
                 return True, "index"
+            if any((not p_["self"]) and p_["pat"].get("name") == v and re.fullmatch(r"&?(usize|u8|u16|u32|u64|i8|i16|i32|i64|isize)", (p_["ty"] or "").replace(" ", ""))
+                   for p_ in fn.params()):
+                return True, "number"
             if (v in seen) or depth > 4:
                 return False, f"`{v}` (cyclic definition)"
             seen.add(v)
